@@ -14,3 +14,15 @@ from . import table  # noqa: E402,F401  (fills PROPS)
 for _m in sorted(m.name for m in pkgutil.iter_modules(__path__)):
     if _m != "table":
         importlib.import_module(__name__ + "." + _m)
+
+
+# one domain restriction shared by every property whose model rests on the L1 scalar equality (second audit, H4)
+_NUMERIC_DOMAIN = ("scalars: the model compares floats as opaque str() tokens, Python compares numbers by value: a pair of "
+                   "documents in which a float equals an int (1.0 / 1, 1e16 / 10**16), -0.0 meets 0.0 or 0, or NaN occurs is "
+                   "outside the model; the real code is checked on exactly those documents by the monitor-only stream numeq "
+                   "(C01-C03) and by the build stream (C18)")
+for _pid in ("C01", "C02", "C03", "C04", "C05", "C06", "C08", "C10"):
+    if _pid in PROPS:
+        PROPS[_pid].setdefault("assumptions", [])
+        if _NUMERIC_DOMAIN not in PROPS[_pid]["assumptions"]:
+            PROPS[_pid]["assumptions"] = list(PROPS[_pid]["assumptions"]) + [_NUMERIC_DOMAIN]
